@@ -909,6 +909,12 @@ def api_strings():
     return out
 
 
+def real_dispatch(item):
+    """One pool for both kinds of item: a list is a block of (string, verdict) for realise_work, a
+    tuple is (kind, strings) for seq_work."""
+    return seq_work(item) if isinstance(item, tuple) else realise_work(item)
+
+
 def realise_item(it):
     """A string (fresh FFI) or [kind, strings] (one FFI for the whole sequence) -> (class, exc)."""
     if isinstance(it, str):
@@ -1090,7 +1096,7 @@ def run(ctx):
     # detection; the evidence then says so and is not marked exhaustive)
     phases = set(getattr(ctx, "opts", {}).get("phases", "c,real,py").split(","))
     # sym2: the keyword alphabet (30 symbols), one symbol shorter than the main pass
-    passes = [("sym", maxlen, accmax), ("sym2", maxlen - 1, 4), ("bytes", 3, 3)]
+    passes = [("sym", maxlen, accmax), ("sym2", maxlen - 1, 3 if quick else 4), ("bytes", 3, 3)]
     if not quick:
         passes.append(("ascii", 4, 4))
     # explicit strings: every standard / common type name and keyword with every one-character edit
@@ -1258,9 +1264,45 @@ def run(ctx):
         ctx.violation(sig, {"side": "compiled_seq", "kind": kind, "strings": list(strings), "how": r.describe(),
                             "confirmed": r.confirmed})
 
-    for blk, r in pool.pmap(realise_work, blocks):
+    # ---- a compiled FFI that is not fresh: extra strings shared, ordered pairs, API mode
+    seq_items_ = []
+    if "real" in phases:
+        short_extra = [s for s in extra if len(s) <= 200]
+        seq_items_ += [("shared", short_extra[i::16]) for i in range(16) if short_extra[i::16]]
+        # (accepted strings of <= 2 symbols; quick: one per class of strings equal up to blanks)
+        pair_set = [seq_str(q) for q in sorted(accset, key=lambda q: (len(q), q)) if len(q) <= 2]
+        if quick:
+            pair_set = [q.strip() for q in pair_set]
+        pair_set = sorted(set(pair_set + PAIR_EXTRA), key=lambda q: (len(q), q))
+        seq_items_ += [("pair", (a, b)) for a in pair_set for b in pair_set]
+        npairs = len(pair_set) ** 2
+        _api["so"] = os.environ["C30_API_SO"] = build_api_module()
+        api_list = api_strings() + [seq_str(q) for L in (1, 2) for q in itertools.product(range(NSYM), repeat=L)]
+        api_list += [c[0] for c in cases[:nenum] if "[" in c[0]]
+        seen_ = set()
+        api_list = [x for x in api_list if not (x in seen_ or seen_.add(x))]
+        seq_items_ += [("api", api_list[i::32]) for i in range(32) if api_list[i::32]]
+        cov_seq = {"shared_extra_strings": len(short_extra), "ordered_pairs": npairs, "pair_alphabet": len(pair_set),
+                   "api_mode_strings": len(api_list)}
+    else:
+        cov_seq = {}
+    nseq = 0
+    # (one pool for both kinds of item: starting 16 workers costs more than the items)
+    blocks += [seq_items_[i::64] for i in range(64) if seq_items_[i::64]]
+    for blk, r in pool.pmap(real_dispatch, blocks):
         if isinstance(r, pool.WorkerError):
             raise InfraError(r.tb)
+        if isinstance(blk, tuple):
+            # an item on a non-fresh FFI: (kind, strings)
+            if isinstance(r, pool.Crash):
+                dead_seq(blk[0], list(blk[1]), r)
+                continue
+            n, hist, bad = r
+            nseq += n
+            for k, v in hist.items():
+                ctx.count(k, v)
+            seq_bad.extend(bad)
+            continue
         if isinstance(r, pool.Crash):
             if len(blk) == 1:
                 dead(blk[0][0], r)
@@ -1310,41 +1352,6 @@ def run(ctx):
     ctx.log("realisation: %d calls (%d all<=%d, %d further enumerated/accepted/edited names, %d extra; each block also "
             "3 times on one shared FFI) in %.1fs" % (nreal, nall, rall, nenum - nall, len(extra), time.time() - t1))
 
-    # ---- a compiled FFI that is not fresh: extra strings shared, ordered pairs, API mode
-    t1b = time.time()
-    seq_items_ = []
-    if "real" in phases:
-        short_extra = [s for s in extra if len(s) <= 200]
-        seq_items_ += [("shared", short_extra[i::16]) for i in range(16) if short_extra[i::16]]
-        # (accepted strings of <= 2 symbols; quick: one per class of strings equal up to blanks)
-        pair_set = [seq_str(q) for q in sorted(accset, key=lambda q: (len(q), q)) if len(q) <= 2]
-        if quick:
-            pair_set = [q.strip() for q in pair_set]
-        pair_set = sorted(set(pair_set + PAIR_EXTRA), key=lambda q: (len(q), q))
-        seq_items_ += [("pair", (a, b)) for a in pair_set for b in pair_set]
-        npairs = len(pair_set) ** 2
-        _api["so"] = os.environ["C30_API_SO"] = build_api_module()
-        api_list = api_strings() + [seq_str(q) for L in (1, 2) for q in itertools.product(range(NSYM), repeat=L)]
-        api_list += [c[0] for c in cases[:nenum] if "[" in c[0]]
-        seen_ = set()
-        api_list = [x for x in api_list if not (x in seen_ or seen_.add(x))]
-        seq_items_ += [("api", api_list[i::32]) for i in range(32) if api_list[i::32]]
-        cov_seq = {"shared_extra_strings": len(short_extra), "ordered_pairs": npairs, "pair_alphabet": len(pair_set),
-                   "api_mode_strings": len(api_list)}
-    else:
-        cov_seq = {}
-    nseq = 0
-    for it, r in pool.pmap(seq_work, [seq_items_[i::64] for i in range(64) if seq_items_[i::64]]):
-        if isinstance(r, pool.WorkerError):
-            raise InfraError(r.tb)
-        if isinstance(r, pool.Crash):
-            dead_seq(it[0], list(it[1]), r)
-            continue
-        n, hist, bad = r
-        nseq += n
-        for k, v in hist.items():
-            ctx.count(k, v)
-        seq_bad.extend(bad)
     nreal += nseq
     seq_bad.sort(key=lambda b: (b[0], b[2], len(b[1]), b[1]))
     for kind, calls, exc in seq_bad:
@@ -1352,8 +1359,8 @@ def run(ctx):
         note_root(sig, calls[-1], "compiled typeof (%s FFI)" % kind, "realise_" + kind)
         ctx.violation(sig, {"side": "compiled_seq", "kind": kind, "calls": list(calls), "exc": exc})
     if seq_items_:
-        ctx.log("non-fresh compiled FFIs: %d calls (%s) in %.1fs" % (nseq, ", ".join(
-            "%s=%d" % kv for kv in sorted(cov_seq.items())), time.time() - t1b))
+        ctx.log("non-fresh compiled FFIs (same pool): %d calls (%s)" % (nseq, ", ".join(
+            "%s=%d" % kv for kv in sorted(cov_seq.items()))))
 
     asan_note = "not run in the quick tier"
     if not quick and "real" in phases:
